@@ -1982,3 +1982,53 @@ mut2(
     ],
     mention=("neighbours",),
 )
+
+# ------------------------------------------------------------------------------ input mutation (round 6)
+LINE_COPY = "    intermediate_repr = deepcopy(intermediate_repr)\n"
+for _mid, _prop, _rule, _file, _anchor, _mention in (
+    ("c10-json-schema-emitter-rewrites-the-callers-params-again", "C10", "C10.inputmut", "cdd/json_schema/emit.py", "    if identifier is None:\n", ("param2json_schema_property",)),
+    ("c06-json-schema-second-emission-again", "C06", "C06.inputmut", "cdd/json_schema/emit.py", "    if identifier is None:\n", ("param2json_schema_property",)),
+    ("c12-class-emitter-moves-returns-of-the-shared-truth-again", "C12", "C12.shared", "cdd/class_/emit.py", '    assert class_name or intermediate_repr["name"], "Class has no name"\n', ("class_",)),
+    ("c10-argparse-emitter-setdefaults-on-the-callers-params-again", "C10", "C10.inputmut", "cdd/argparse_function/emit.py", '    function_name: Optional[str] = function_name or intermediate_repr["name"]\n', ("param2argparse_param",)),
+    ("c10-docstring-emitter-rewrites-doc-in-place-again", "C10", "C10.inputmut", "cdd/docstring/emit.py", '    params = "\\n{maybe_nl}".format(\n', ("set_default_doc",)),
+):
+    mut(_mid, _prop, _rule, _file, LINE_COPY + _anchor, _anchor, mention=_mention)
+mut(
+    "c10-sqlalchemy-table-emitter-adds-the-synthetic-pk-to-the-callers-params-again",
+    "C10",
+    "C10.inputmut",
+    "cdd/sqlalchemy/emit.py",
+    LINE_COPY + "    return Assign(\n",
+    "    return Assign(\n",
+    mention=("ensure_has_primary_key",),
+)
+mut(
+    "c10-shallow-copy-still-shares-the-parameter-mappings",
+    "C10",
+    "C10.inputmut",
+    "cdd/json_schema/emit.py",
+    LINE_COPY + "    if identifier is None:\n",
+    "    intermediate_repr = dict(intermediate_repr)\n    if identifier is None:\n",
+    mention=("param2json_schema_property",),
+)
+mut(
+    "c10-sqlalchemy-class-parser-inserts-into-the-callers-tree-again",
+    "C10",
+    "C10.inputmut",
+    "cdd/sqlalchemy/utils/emit_utils.py",
+    """        return Call(
+            func=assign.value.func,
+            args=[cdd.shared.ast_utils.set_value(assign.targets[0].id)]
+            + assign.value.args,
+            keywords=assign.value.keywords,
+            lineno=None,
+            col_offset=None,
+        )
+""",
+    """        assign.value.args.insert(
+            0, cdd.shared.ast_utils.set_value(assign.targets[0].id)
+        )
+        return assign.value
+""",
+    mention=("insert",),
+)
